@@ -133,6 +133,8 @@ def corpus(rng):
     C.append(Case(nbw=1, jobsize=512 * 1024, ovlog=9, isize=5 * MB, prog="E4194304", tag="wrap-ov9"))
     C.append(Case(nbw=2, jobsize=512 * 1024, ovlog=1, isize=5 * MB, prog="E4194304", tag="wrap-ov1"))
     C.append(Case(nbw=3, jobsize=MB, ovlog=6, isize=7 * MB, kind=2, prog="c3000000:4194304,f0:4194304,E4194304", tag="wrap-incompressible"))
+    # the next input range would end inside the PREFIX (not the source) of the oldest unfinished job: only the prefix test refuses it
+    C.append(Case(nbw=2, jobsize=512 * 1024, ovlog=8, kind=3, isize=5000000, prog="C2621440:0,C100000:0,f0:0,C524288:0,C524288:0,E4194304", tag="range-ends-in-prefix"))
     # flush with small jobs (small extents in the round buffer)
     C.append(Case(nbw=2, jobsize=512 * 1024, isize=3 * MB, prog=",".join(["f70000:4194304"] * 12) + ",E4194304", tag="small-flush-jobs"))
     # empty last job (end with nothing buffered), single-job frame keeps the checksum in the worker
@@ -157,7 +159,7 @@ def corpus(rng):
     out = []
     for c in C:
         out.append(c.clone(policy="r", fam=6))
-        for fam, arg in ((2, 0), (2, 1), (3, 0), (4, 0), (5, 0)):
+        for fam, arg in ((2, 0), (2, 1), (3, 0), (4, 0), (5, 0), (7, 1), (7, 2)):
             out.append(c.clone(policy="r", fam=fam, famarg=arg, seed=rng.getrandbits(40)))
         out.append(c.clone(policy="r", fam=1, famarg=3, seed=rng.getrandbits(40)))
         out.append(c.clone(policy="r", fam=0, stay=rng.choice([0, 50, 90]), seed=rng.getrandbits(40)))
@@ -640,7 +642,7 @@ def search(ctx, runner, c, n=96):
     rng = random.Random(ctx.seed * 31 + 7)
     cs = []
     for i in range(n):
-        fam = [0, 1, 2, 3, 4, 5][i % 6]
+        fam = [0, 1, 2, 3, 4, 5, 6, 7][i % 8]
         cs.append(c.clone(policy="r", fam=fam, famarg=rng.choice([0, 1, 2, 3]), seed=rng.getrandbits(40), stay=rng.choice([0, 50, 90]), sched="-"))
     try:
         rs = runner.run(cs, "search")
